@@ -57,6 +57,10 @@ func (app *App) checkRecovery() {
 		return
 	}
 	masterNode := app.cluster.Get(master)
+	if masterNode == nil {
+		app.logger.Error().Msgf("recovery: master %s is not a registered cluster host", master)
+		return
+	}
 	mgtids, err := masterNode.GTIDExecutedParsed()
 	if err != nil {
 		app.logger.Error().Err(err).Msgf("recovery: host %s failed to get master status", masterNode)
@@ -91,6 +95,10 @@ func (app *App) checkRecovery() {
 		app.logger.Info().Msgf("recovery: new master is found %s, and current node is stuck for more than %v. Writing resetup file", master, StuckWaitTime)
 		app.writeResetupFile()
 		app.t.Clean(MasterStuckAt, localNode.Host())
+		return
+	}
+	if sstatus == nil {
+		app.logger.Info().Msg("recovery: waiting for manager to turn us to a new master")
 		return
 	}
 
